@@ -134,6 +134,7 @@ func init() {
 			{Name: "profiles", TShards: 4, Run: c16Profiles},
 			{Name: "pileups", TShards: 2, Run: c16Pileups},
 			{Name: "scales", QShards: 4, TShards: 8, Run: c16Scales},
+			{Name: "tilings", QShards: 4, TShards: 8, Run: c16Tilings},
 		},
 	})
 }
@@ -782,5 +783,79 @@ func c16Scales(c *Ctx) {
 			})
 			idx++
 		}
+	}
+}
+
+// c16Tilings: regular layouts (features every `step` positions, each `width`
+// long — exons, tiles, windows) of about a thousand and a few thousand
+// intervals, every combination of count, step, width, origin and a last
+// interval stretched by 0..5: the covered span, the number of intervals and the
+// number of distinct endpoints are in every simple ratio to each other
+// (equal, double, exact multiples, one off a multiple). Queried at both extremes
+// (smallest start, largest end, +-1), at a sample of endpoints and inside gaps.
+func c16Tilings(c *Ctx) {
+	var counts []int
+	for n := 1000; n <= 1100; n++ {
+		counts = append(counts, n)
+	}
+	if c.Thorough {
+		for n := 2030; n <= 2070; n++ {
+			counts = append(counts, n)
+		}
+		for n := 4080; n <= 4110; n++ {
+			counts = append(counts, n)
+		}
+		counts = append(counts, 8192, 16384, 65536)
+	} else {
+		counts = append(counts, 2047, 2048, 2049, 4096)
+	}
+	for ci, n := range counts {
+		c.Case(int64(ci), func(k *K) {
+			r := k.Rand()
+			origin := pick(r, []int{0, 0, 1, -7, 1000003})
+			for step := 2; step <= 5; step++ {
+				for width := 1; width <= step; width++ {
+					for stretch := 0; stretch <= 5; stretch++ {
+						starts, ends := make([]int, n), make([]int, n)
+						for x := 0; x < n; x++ {
+							starts[x], ends[x] = origin+step*x, origin+step*x+width
+						}
+						ends[n-1] += stretch
+						ix := regions.NewIndex(starts, ends)
+						lo, hi := starts[0], ends[n-1]
+						queries := []int{lo - 1, lo, lo + 1, hi - 2, hi - 1, hi, hi + 1, (lo + hi) / 2, lo + (hi-lo)/3}
+						for q := 0; q < 6; q++ {
+							x := r.IntN(n)
+							queries = append(queries, starts[x]-1, starts[x], ends[x]-1, ends[x])
+						}
+						for _, q := range queries {
+							// the reference answer of a tiling is known in closed form
+							var want []int
+							if x := (q - origin) / step; q >= origin && x < n && q < ends[x] {
+								want = append(want, x)
+							} else if q >= starts[n-1] && q < ends[n-1] {
+								want = append(want, n-1)
+							}
+							var got []int
+							if pv := catch(func() { got = ix.At(q) }); pv != nil {
+								k.Input("layout", fmt.Sprintf("%d intervals [%d+%d*x, +%d), the last one stretched by %d", n, origin, step, width, stretch))
+								k.Failf("panic", "At(%d) on %d tiled intervals spanning [%d,%d) panicked: %v", q, n, lo, hi, pv)
+								return
+							}
+							if !sameInts(got, want) {
+								k.Input("layout", fmt.Sprintf("%d intervals [%d+%d*x, +%d), the last one stretched by %d", n, origin, step, width, stretch))
+								k.Failf("at", "At(%d) on %d tiled intervals spanning [%d,%d) = %v, want %v", q, n, lo, hi, got, want)
+								return
+							}
+						}
+						k.Count("indexes_built", 1)
+						k.Count("queries", int64(len(queries)))
+						k.Count("queries_on_tilings", int64(len(queries)))
+						k.Evals(int64(len(queries)))
+					}
+				}
+			}
+			k.Nontrivial([]byte(fmt.Sprint("tilings", n)))
+		})
 	}
 }
